@@ -409,6 +409,25 @@ pub fn run_to(emu: &mut Emu, pc: u16, max_frames: usize) -> bool {
     false
 }
 
+/// like `run_to`, also counting the frames that were completed on the way
+pub fn run_to_count(emu: &mut Emu, pc: u16, max_frames: usize) -> (bool, usize) {
+    let mut s = HashSet::new();
+    s.insert(pc);
+    emu.set_debug_interface(VDebug::Set(s));
+    emu.set_speed(EmulationMode::FrameCount(1));
+    for f in 0..max_frames {
+        match emu.emulate_frames(Duration::from_secs(1000)) {
+            Ok(info) => {
+                if info.stop_reason == rustzx_core::EmulationStopReason::Breakpoint {
+                    return (true, f);
+                }
+            }
+            Err(_) => return (false, f),
+        }
+    }
+    (false, max_frames)
+}
+
 /// Places bytes through the CPU write path (screen copy stays coherent, ROM is not written)
 pub fn poke_bytes(emu: &mut Emu, addr: u16, bytes: &[u8]) {
     for (i, b) in bytes.iter().enumerate() {
